@@ -28,8 +28,10 @@ B. "the chunk boundaries of the read callback"
      point, size)` for the chunk logic `coreChars`) → `lexStream_eq_coreChars`, `chars_chunk_indep_port` (the FULL
      port: `set_input`, `start`, `advance` with the ASCII fast path, row/column/column-cache updates, range loop over
      the default range).  Hypotheses: `WholeChar` (NEEDED: `chars_chunk_dep_witness`, finding
-     C09-short-chunk-at-char-start), text < 2^32 bytes, text does not begin with a BOM (the BOM skip of
-     `ts_lexer_start` is left to the per-drive check `model:coreChars=lexStream`).
+     C09-short-chunk-at-char-start), text < 2^32 bytes.  Texts that BEGIN with a BOM: `Bom.lean` — `advance_skip`
+     (`skip = true` only moves `token_start_position`), `lexStream_bom` (the port's sequence is the chunk logic's
+     without its first element), `chars_chunk_indep_port_any` (chunk independence of the full port with NO assumption
+     about a BOM).
    * columns under chunking: `column_cache_eq` (+ `doAdvance_col`) — a valid column cache equals what the
      recomputation loop of `get_column` returns.
    * JUDGED: fixed 1/2/3/4/7-byte chunks, every split of documents ≤ 9 bytes, random splits (also inside
